@@ -57,6 +57,9 @@ def body_prune(cube, **kw):
         for x in nodes:
             if x.type in ('exist', 'notExist'):
                 x.existence_status = True
+        if cube.get('idperm'):
+            for x in nodes:
+                x.ttc = {'type': 'function', 'name': 'Exponential', 'arguments': [0.1]}
         seen_ids = [x.id for x in nodes]
         seen_names = [x.full_name for x in nodes]
     flags = []
